@@ -240,8 +240,12 @@ def conclude(prop, mod, tier, seed, cases, results, wall, verbose=False):
         'property_id': prop, 'tier': tier, 'seed': int(seed), 'level': mod.LEVEL, 'coverage': coverage,
         'assumptions': getattr(mod, 'ASSUMPTIONS', []), 'wall_s': round(wall, 2), 'violations': len(violations),
     }
-    os.makedirs(os.path.join(env.VERIF, 'evidence'), exist_ok=True)
-    json.dump(evidence, open(os.path.join(env.VERIF, 'evidence', prop + '.json'), 'w'), indent=1, default=str)
+    # evidence/ is written only by runs against /repo itself; self-validation runs on scratch copies (VERIF_REPO) and replays go elsewhere
+    evdir = os.path.join(env.VERIF, 'evidence')
+    if env.REPO != '/repo' or os.environ.get('VERIF_REPLAY'):
+        evdir = os.path.join(env.VERIF, 'out', 'evidence-scratch')
+    os.makedirs(evdir, exist_ok=True)
+    json.dump(evidence, open(os.path.join(evdir, prop + '.json'), 'w'), indent=1, default=str)
     for ln in lines:
         print(ln)
     print('%s %s tier=%s seed=%s: %s; %d cases, %d distinct non-trivial, %d violation signature(s), %.1fs'
